@@ -28,6 +28,7 @@ const (
 	c13ClassFileAlias      = "C13-file-unclean-path-aliased"
 	c13ClassFileUnderscore = "C13-file-underscore-name-collision"
 	c13ClassFileTemp       = "C13-file-temp-suffix-key-clobbered"
+	c13ClassFileLong       = "C13-file-rejected-put-leaves-directory"
 	c13ClassStall          = "C13-paged-listing-stalls-on-empty-entry"
 )
 
@@ -45,11 +46,12 @@ type c13Run struct {
 	txModel       *c13Model
 	tx            c13Tx
 	txRO          bool
+	txIrregular   bool // the open transaction accepted a write to an irregular key
 	skip          bool // inside a block that a non-transactional stack does not execute
 	roReads       bool // inside a read-only block on a non-transactional stack: reads only
 	obs           map[string]int
 	unclean       bool // a key/prefix that is not in path.Clean form was handed to the stack
-	longSeg       bool // a key with a segment longer than c13LongSeg was handed to the stack
+	putRejected   bool // a put was rejected by the stack (tolerated: irregular key)
 	underscoreSeg bool // a key with a segment starting with "_" was handed to the stack
 	tempSeg       bool // a key with a segment ending in ".temp" was handed to the stack
 	done          []c13Op
@@ -70,13 +72,14 @@ func (r *c13Run) cur() *c13Model {
 }
 
 func (r *c13Run) note(k string) {
+	if r.tx != nil && c13Irregular(k) {
+		// reads and writes alike become part of what the transaction submits
+		r.txIrregular = true
+	}
 	if c13Unclean(k) {
 		r.unclean = true
 	}
 	for _, s := range strings.Split(k, "/") {
-		if len(s) > c13LongSeg {
-			r.longSeg = true
-		}
 		if strings.HasPrefix(s, "_") {
 			r.underscoreSeg = true
 		}
@@ -98,7 +101,7 @@ func (r *c13Run) class(generic string) string {
 		switch {
 		case r.unclean:
 			return c13ClassFileAlias
-		case r.longSeg:
+		case r.putRejected:
 			return c13ClassFileLong
 		case r.underscoreSeg:
 			return c13ClassFileUnderscore
@@ -132,13 +135,13 @@ func (r *c13Run) checkGet(opid string, kv c13KV, m *c13Model, k string) *c13Fail
 	want, ok := m.get(k)
 	switch {
 	case ok && !found:
-		return r.fail(r.class("C13-get-lost-value"), opid, fmt.Sprintf("get(%q) found nothing, the last put stored %d bytes", k, len(want)), len(want), nil)
+		return r.fail(r.class("C13-get-lost-value"), opid, fmt.Sprintf("get(%s) found nothing, the last put stored %d bytes", c13Q(k), len(want)), len(want), nil)
 	case !ok && found:
-		return r.fail(r.class("C13-get-phantom-value"), opid, fmt.Sprintf("get(%q) returned %d bytes, the model has no such key (never put, or deleted)", k, len(val)), nil, len(val))
+		return r.fail(r.class("C13-get-phantom-value"), opid, fmt.Sprintf("get(%s) returned %d bytes, the model has no such key (never put, or deleted)", c13Q(k), len(val)), nil, len(val))
 	case ok && !bytes.Equal(want, val):
-		return r.fail(r.class("C13-get-wrong-value"), opid, fmt.Sprintf("get(%q) returned %d bytes that are not the last value put (%d bytes)", k, len(val), len(want)), want, val)
+		return r.fail(r.class("C13-get-wrong-value"), opid, fmt.Sprintf("get(%s) returned %d bytes that are not the last value put (%d bytes)", c13Q(k), len(val), len(want)), want, val)
 	case ok && rk != k:
-		return r.fail(r.class("C13-get-wrong-key"), opid, fmt.Sprintf("get(%q) returned an entry whose key is %q", k, rk), k, rk)
+		return r.fail(r.class("C13-get-wrong-key"), opid, fmt.Sprintf("get(%s) returned an entry whose key is %s", c13Q(k), c13Q(rk)), k, rk)
 	}
 	if ok {
 		r.obs["get_hit"]++
@@ -159,7 +162,7 @@ func (r *c13Run) checkList(opid string, got []string, err error, m *c13Model, pr
 	}
 	want := m.children(prefix)
 	if !c13EqualStrings(c13Sorted(got), want) {
-		return r.fail(r.class("C13-list-mismatch"), opid, fmt.Sprintf("list(%q) = %q, the immediate children are %q", prefix, c13Trunc(got), c13Trunc(want)), want, got)
+		return r.fail(r.class("C13-list-mismatch"), opid, fmt.Sprintf("list(%s) = %s, the immediate children are %s", c13Q(prefix), c13QL(got), c13QL(want)), want, got)
 	}
 	if !sort.StringsAreSorted(got) {
 		r.obs["list_unsorted"]++
@@ -208,7 +211,7 @@ func (r *c13Run) checkPage(opid string, got []string, err error, m *c13Model, pr
 		if inTx {
 			where = " inside a transaction"
 		}
-		return r.fail(class, opid, fmt.Sprintf("%s%s (physical prefix %q) = %q; the sorted full listing is %q, so the page must be %q", o, where, full, c13Trunc(got), c13Trunc(m.children(prefix)), c13Trunc(want)), want, got)
+		return r.fail(class, opid, fmt.Sprintf("%s%s (physical prefix %s) = %s; the sorted full listing is %s, so the page must be %s", o, where, c13Q(full), c13QL(got), c13QL(m.children(prefix)), c13QL(want)), want, got)
 	}
 	all := m.children(prefix)
 	nAfter := 0
@@ -312,6 +315,7 @@ func (g *c13Guard) ListPage(ctx context.Context, prefix, after string, limit int
 		g.st.tripped = true
 		return nil, errC13NoProgress
 	}
+	g.r.notePrefix(prefix)
 	res, err := g.inner.ListPage(ctx, prefix, after, limit)
 	g.r.obs["helper_page_calls"]++
 	if g.st.fail == nil {
@@ -462,7 +466,7 @@ func (r *c13Run) doScan(o c13Op) *c13Fail {
 		var n int
 		n, err = logical.CountKeys(c13Ctx, view)
 		if err == nil && n != len(want) && g.st.fail == nil && !g.st.tripped {
-			return r.fail(r.class("C13-scan-mismatch"), opid, fmt.Sprintf("CountKeys = %d, the view holds %d keys %q", n, len(want), c13Trunc(want)), len(want), n)
+			return r.fail(r.class("C13-scan-mismatch"), opid, fmt.Sprintf("CountKeys = %d, the view holds %d keys %s", n, len(want), c13QL(want)), len(want), n)
 		}
 		got = want
 	}
@@ -471,7 +475,7 @@ func (r *c13Run) doScan(o c13Op) *c13Fail {
 		return f
 	}
 	if !c13EqualStrings(c13Sorted(got), want) {
-		return r.fail(r.class("C13-scan-mismatch"), opid, fmt.Sprintf("%s visited %q, the keys under the view are %q", name, c13Trunc(c13Sorted(got)), c13Trunc(want)), want, got)
+		return r.fail(r.class("C13-scan-mismatch"), opid, fmt.Sprintf("%s visited %s, the keys under the view are %s", name, c13QL(c13Sorted(got)), c13QL(want)), want, got)
 	}
 	if len(want) >= 3 {
 		r.obs["scan_3plus_keys"]++
@@ -494,7 +498,7 @@ func (r *c13Run) doHLP(o c13Op) *c13Fail {
 		return f
 	}
 	if !c13EqualStrings(items, want) || !c13EqualStrings(batched, want) {
-		return r.fail(r.class("C13-handlelistpage-mismatch"), opid, fmt.Sprintf("%s delivered items %q / batches %q, the sorted listing is %q", o, c13Trunc(items), c13Trunc(batched), c13Trunc(want)), want, items)
+		return r.fail(r.class("C13-handlelistpage-mismatch"), opid, fmt.Sprintf("%s delivered items %s / batches %s, the sorted listing is %s", o, c13QL(items), c13QL(batched), c13QL(want)), want, items)
 	}
 	if o.Limit > 0 && len(want) > o.Limit {
 		r.obs["hlp_multi_page"]++
@@ -518,7 +522,7 @@ func (r *c13Run) doClear(o c13Op) *c13Fail {
 		return f
 	}
 	if left := r.cur().keysUnder(""); len(left) > 0 {
-		return r.fail(r.class("C13-clear-incomplete"), opid, fmt.Sprintf("%s returned without deleting %q", o, c13Trunc(left)), []string{}, left)
+		return r.fail(r.class("C13-clear-incomplete"), opid, fmt.Sprintf("%s returned without deleting %s", o, c13QL(left)), []string{}, left)
 	}
 	if before >= 3 {
 		r.obs["clear_3plus_keys"]++
@@ -631,6 +635,9 @@ func (r *c13Run) exec(ops []c13Op, i int) *c13Fail {
 		if err != nil {
 			if c13Irregular(o.Key) || r.txRO {
 				r.obs["rejected"]++
+				if o.Kind == "put" {
+					r.putRejected = true
+				}
 				if r.txRO {
 					r.obs["rotxn_write_rejected"]++
 				}
@@ -671,6 +678,17 @@ func (r *c13Run) exec(ops []c13Op, i int) *c13Fail {
 		r.notePrefix(o.Prefix)
 		got, err := kv.page(o.Prefix, o.After, o.Limit)
 		return r.checkPage(opid, got, err, m, o.Prefix, o.After, o.Limit, r.tx != nil)
+	case "cachectl":
+		// must be unobservable: drop one key / everything from the read cache
+		if c := r.st.cache; c != nil {
+			if o.Var == 0 {
+				c.Invalidate(c13Ctx, r.st.physPrefix+o.Key)
+			} else {
+				c.Purge(c13Ctx)
+			}
+			r.obs["cache_invalidate_or_purge"]++
+		}
+		return nil
 	case "scan":
 		return r.doScan(o)
 	case "hlp":
@@ -724,7 +742,7 @@ func (r *c13Run) sweep(seq *c13Seq) *c13Fail {
 	}
 	for k, v := range r.st.outside {
 		if pv, ok := phys[k]; !ok || !bytes.Equal(pv, v) {
-			return r.fail(r.class("C13-view-affected-outside-key"), "sweep:dump", fmt.Sprintf("key %q outside the view prefix %q was changed or removed by operations on the view (still present: %v)", k, r.st.physPrefix, ok), v, pv)
+			return r.fail(r.class("C13-view-affected-outside-key"), "sweep:dump", fmt.Sprintf("key %s outside the view prefix %s was changed or removed by operations on the view (still present: %v)", c13Q(k), c13Q(r.st.physPrefix), ok), v, pv)
 		}
 	}
 	var missing, extra []string
@@ -753,7 +771,7 @@ func (r *c13Run) sweep(seq *c13Seq) *c13Fail {
 	sort.Strings(missing)
 	sort.Strings(extra)
 	if len(missing)+len(extra) > 0 {
-		return r.fail(r.class(class), "sweep:dump", fmt.Sprintf("content of the base differs from (keys outside the view) + prefix %q + model: missing %q, unexpected %q", r.st.physPrefix, c13Trunc(missing), c13Trunc(extra)), nil, nil)
+		return r.fail(r.class(class), "sweep:dump", fmt.Sprintf("content of the base differs from (keys outside the view) + prefix %s + model: missing %s, unexpected %s", c13Q(r.st.physPrefix), c13QL(missing), c13QL(extra)), nil, nil)
 	}
 	r.obs["dump_checked"]++
 	if r.st.hasView {
@@ -780,16 +798,26 @@ func c13RunOne(env *c13BaseEnv, layer string, seq *c13Seq, ops []c13Op, withSwee
 		}
 	}()
 	for i := range ops {
-		if f := r.exec(ops, i); f != nil {
+		if f := r.guarded(fmt.Sprintf("op%d", ops[i].ID), ops[i].String(), func() *c13Fail { return r.exec(ops, i) }); f != nil {
 			return r, f
 		}
 	}
 	if withSweep {
-		if f := r.sweep(seq); f != nil {
+		if f := r.guarded("sweep:panic", "read-back sweep", func() *c13Fail { return r.sweep(seq) }); f != nil {
 			return r, f
 		}
 	}
 	return r, nil
+}
+
+// guarded turns a panic of the code under test (on this goroutine) into a failure.
+func (r *c13Run) guarded(opid, what string, fn func() *c13Fail) (f *c13Fail) {
+	defer func() {
+		if p := recover(); p != nil {
+			f = r.fail(r.class("C13-panic"), opid, fmt.Sprintf("%s panicked: %v", what, p), nil, fmt.Sprint(p))
+		}
+	}()
+	return fn()
 }
 
 // c13Shrink removes operations one at a time while the same check keeps failing
@@ -902,17 +930,17 @@ func c13WithTxnMins() map[string]int64 {
 }
 
 func TestVerif_C13_Inmem(t *testing.T) {
-	c13Family(t, "c13-inmem", c13InmemBase(false), c13AllLayers, kit.N(150, 3000), 40, c13CommonMins)
+	c13Family(t, "c13-inmem", c13InmemBase(false), c13AllLayers, kit.N(400, 16000), kit.N(48, 60), c13CommonMins)
 }
 
 func TestVerif_C13_InmemTxn(t *testing.T) {
-	c13Family(t, "c13-inmem-txn", c13InmemBase(true), c13AllLayers, kit.N(150, 3000), 40, c13WithTxnMins())
+	c13Family(t, "c13-inmem-txn", c13InmemBase(true), c13AllLayers, kit.N(400, 16000), kit.N(48, 60), c13WithTxnMins())
 }
 
 func TestVerif_C13_File(t *testing.T) {
-	c13Family(t, "c13-file", c13FileBase(t), c13AllLayers, kit.N(150, 3000), 40, c13CommonMins)
+	c13Family(t, "c13-file", c13FileBase(t), c13AllLayers, kit.N(400, 16000), kit.N(48, 60), c13CommonMins)
 }
 
 func TestVerif_C13_Raft(t *testing.T) {
-	c13Family(t, "c13-raft", c13RaftBase(t), c13AllLayers, kit.N(150, 3000), 40, c13WithTxnMins())
+	c13Family(t, "c13-raft", c13RaftBase(t), c13AllLayers, kit.N(400, 16000), kit.N(48, 60), c13WithTxnMins())
 }
